@@ -350,6 +350,9 @@ func init() {
 					file.WriteString("\n")
 				}
 				funcsText = file.String()
+				if t.WBool(1, 3) {
+					funcsText = strings.TrimSuffix(funcsText, "\n") // a last line without a newline is still a line
+				}
 				cg := &xGen{t: t, fns: append(append([]string{}, xScalar...), fnNames...)}
 				call := &xNode{Kind: xCall, S: fnNames[t.W(len(fnNames))]}
 				for n := 1 + t.W(3); n > 0; n-- {
